@@ -6,7 +6,8 @@ use std::collections::HashMap;
 #[cfg(not(similari_verif))]
 use std::sync::RwLock;
 #[cfg(similari_verif)]
-use similari_verif_rt::sync::RwLock;
+#[allow(unused_imports)]
+use similari_verif_rt::sync::*;
 
 /// Class that is used to configure the Visual Tracker
 #[derive(Debug, Clone)]
